@@ -9,6 +9,18 @@ CHECKS = {
  "C01": ("runtime monitor: library round trip + independent Annex G/PackBits reference reader over executed frames (complete execution of small frame spaces, structured run/literal generators, seeded random geometries)",
          "Held on every executed frame: all frames up to 12 bytes over {00,01,FF} for each of the 12 plane layouts executed completely, plus run/literal structures around the 2/3 and 127/128/129/256 boundaries, random geometries up to 1024x1024 and 65535x1 / 1x65535. Says nothing about frames not executed.",
          "Trusted: internal/ref/rle.go (independent reader, self-tested in the prelude against hand-built Annex G streams); the harness PixelData.", "3/C01"),
+ "C02": ("runtime monitor: encode->decode round trip oracle over executed images (complete execution of small image spaces at P=2..4 for every selector, all two-sample difference pairs, seeded cell sweep P x components x selector x content class)",
+         "Held on every executed image: complete small-geometry spaces at low precision for predictors 0..7 and SV1, every difference value through the category coder, seeded sweeps of all 270 (P, components, selector) cells with hostile content (alternating extremes, noise), 65535x1 and 1x65535. Says nothing about images not executed.",
+         "Self round trip (library encoder vs library decoder); conformance to T.81 is C13's business.", "3/C02"),
+ "C03": ("runtime monitor: encode->decode round trip oracle over executed images (complete execution of small image spaces, seeded cell sweep P x components x content class, RESET-sized and 65535-long images)",
+         "Held on every executed image; all 30 (P, components) cells visited with every content class each run; complete small spaces at P=2..4.",
+         "Self round trip; conformance to T.87 is C14's business.", "3/C03"),
+ "C07": ("runtime monitor: per-sample |decoded-source|<=NEAR oracle over executed images, every NEAR value of every precision visited",
+         "Held on every executed (P, NEAR, image): every NEAR in 0..min(255,MAXVAL/2) for the precisions listed in the evidence (all 15 in the thorough tier), contents aimed at the clamp, the run/regular boundary and run interruption.",
+         "Self round trip; the oracle needs nothing but the source and decoded samples.", "3/C07"),
+ "C20": ("runtime monitor: encoder->decoder identity oracles on the exported MQ / T1 / 5-3 DWT / RCT layers (complete execution of short MQ sequences and short DWT signals, seeded sweeps of 64 T1 styles x block shapes)",
+         "Held on every executed input: all (bit,context) sequences up to length 8 (quick) / 16 (thorough) over two contexts, random and adversarial MQ sequences up to 1e5 symbols, all 64 code-block styles x block shapes x orientations through EncodeLayered/DecodeLayeredWithMode, all 1-D 5/3 signals up to length 7/8 over {-2..2} for both parities, 2-D multilevel transforms with origin parity, RCT on [-8..8]^3 and random triples. One known finding (LAZY without TERMALL).",
+         "Round trip only; the T1 decoder is driven the way jpeg2000/t2/tile_decoder.go drives it, with PassData.Rate as cumulative pass lengths.", "3/C20"),
 }
 
 NOT_YET = {
